@@ -207,13 +207,16 @@ TRANSPARENT_CALLS = {
 
 class CallSite:
     __slots__ = ("fn", "bb", "callee", "resolved", "trait", "self_ty", "gargs", "args", "dest",
-                 "target", "unwind", "line", "mac", "indirect")
+                 "target", "unwind", "line", "mac", "indirect", "callee_def", "resolved_def")
 
     def __init__(self, fn, bb, info, line, mac):
         self.fn = fn
         self.bb = bb
         self.callee = info.get("callee")
         self.resolved = info.get("resolved")
+        # definition paths not going through re-exports (only present when they differ)
+        self.callee_def = info.get("callee_def") or self.callee
+        self.resolved_def = info.get("resolved_def") or self.resolved
         self.trait = info.get("trait")
         self.self_ty = info.get("self_ty")
         self.gargs = info.get("gargs", "")
@@ -239,8 +242,7 @@ class CallSite:
         return short_path(self.name)
 
     def matches(self, regex):
-        return bool((self.callee and re.search(regex, self.callee)) or
-                    (self.resolved and re.search(regex, self.resolved)))
+        return any(n and re.search(regex, n) for n in (self.callee, self.resolved, self.callee_def, self.resolved_def))
 
     def arg_expr(self, i, **kw):
         return self.fn.expr(self.args[i], **kw)
@@ -738,7 +740,9 @@ class Fn:
             if ty == "bool":
                 return E("const", "true" if c["int"] != "0" else "false", c)
             return E("const", c["int"], c)
-        s = c.get("c", "?")
+        if "deref_int" in c:
+            return E("const", c["deref_int"], c)
+        s = c.get("pval") or c.get("c", "?")
         s = re.sub(r"^const ", "", s)
         s = re.sub(r"_(u|i)(8|16|32|64|128|size)$", "", s)
         return E("const", s, c)
@@ -979,14 +983,14 @@ class Program:
     def callees(self, cs):
         """Local Fn objects a call site may dispatch to."""
         out = []
-        for nm in (cs.resolved, cs.callee):
+        for nm in (cs.resolved_def, cs.resolved, cs.callee_def, cs.callee):
             if nm and nm in self.fns:
                 out.append(self.fns[nm])
                 return out
         # unresolved trait method: every local impl of that trait item
         if cs.callee and cs.trait:
             for f in self._by_name.get(cs.callee.rsplit("::", 1)[-1], []):
-                if f.trait_item == cs.callee:
+                if f.trait_item in (cs.callee, cs.callee_def):
                     out.append(f)
         return out
 
@@ -997,10 +1001,9 @@ class Program:
                 for cs in f.calls:
                     for g in self.callees(cs):
                         cm[g.id].append(cs)
-                    if cs.callee and cs.callee not in self.fns:
-                        cm[cs.callee].append(cs)
-                    if cs.resolved and cs.resolved not in self.fns and cs.resolved != cs.callee:
-                        cm[cs.resolved].append(cs)
+                    names = set(n for n in (cs.callee, cs.resolved, cs.callee_def, cs.resolved_def) if n and n not in self.fns)
+                    for nname in names:
+                        cm[nname].append(cs)
                 # closures created here count as "calls" from the parent to the closure body
                 for bb, si, s in f.statements():
                     rv = s[2] if s[0] == "=" else None
